@@ -34,6 +34,7 @@ import CtyModel.Lemmas.ConvertD08SetEnv
 import CtyModel.Lemmas.UnifyTyLaws
 import CtyModel.Lemmas.ConvertD08Mono
 import CtyModel.Lemmas.ConvertD08Fuel
+import CtyModel.Lemmas.ConvertD08Covers
 namespace CtyModel
 namespace C08
 open Convert Ty
@@ -198,6 +199,40 @@ theorem unknown_sound_partial (E : Env) (hU : UnifyLaws E) (fuel : Nat) (uns : B
 unknown set of at least 2 strings becomes an unknown set of numbers with at least 1 member -/
 example : convert Env.simple 4 ⟨.set .string, .unk (.coll .u 2 3)⟩ (.set .number) =
     .ok ⟨.set .number, .unk (.coll .u 1 3)⟩ := rfl
+
+/-! ### … stated with `Covers`, marked inputs included
+
+`Covers a c` (DESIGN §3.6): the abstract value `a` admits `c`.  The clause "for unknown or null
+input returns an unknown or null of the target type whose refinements admit the conversion of
+every admitted input" is monotonicity of the conversion along `Covers`. -/
+
+/-- A marked input — known, unknown or null — is converted without its marks and gets them back:
+this lifts `null_sound_partial` and `unknown_sound_partial` (stated for unmarked inputs) to marked ones,
+for every conversion `GetConversion*` returns, every environment and fuel. -/
+theorem marked_input (E : Env) (fuel : Nat) (out : Ty) (conv : Plan) (v : Value) (hm : v.isMarked = true) :
+    apply E (fuel + 1) (.wrap out conv) v =
+      (match apply E fuel (.wrap out conv) v.unmark with
+       | .ok r => .ok (r.withMarks v.marks)
+       | other => other) :=
+  apply_marked E fuel out conv v hm
+
+/-- Conversions between primitive types: `v` unknown with any refinement (marked or not), `v'` any
+well-typed value of the same type that `v` admits — a null, a more refined unknown, or a known value,
+marked or not.  The result for `v` admits the result for `v'` (`Covers`), whichever conversion
+(`GetConversion` or `GetConversionUnsafe`), environment and fuels.  (Collection targets — where the
+result's length refinement, or the known collection it collapses to, must admit the converted
+collection — are covered by `unknown_sound_partial` only as far as the bounds go; the `Covers`
+statement for them is searched by the harness: `cv.admits`.) -/
+theorem unknown_covers_prim_partial (E : Env) (hU : UnifyLaws E) (fuel fuel' : Nat) (uns : Bool)
+    (v v' r r' : Value) (want : Ty) (p : Plan) (hpv : isPrim v.ty = true) (hw : isPrim want = true)
+    (hwt : wtP v.ty v.v = true) (hwt' : wtP v'.ty v'.v = true) (hty : v'.ty = v.ty)
+    (hg : getConv E v.ty want uns = some p) (hk : v.isKnown = false) (hc : Covers v v' = true)
+    (h : apply E fuel p v = .ok r) (h' : apply E fuel' p v' = .ok r') : Covers r r' = true :=
+  unknown_covers_prim hU hpv hw hwt hwt' hty hg hk hc h h'
+
+/-- a marked unknown number that is not null admits the marked known 1.5; so do the results -/
+example : Covers ⟨.number, .marked ["m"] (.unk (.num .f none none))⟩ ⟨.number, .n (.fin false 3 (-1) 53)⟩ = true := by
+  decide
 
 /-! ## No panic -/
 
@@ -385,6 +420,54 @@ theorem roundtrip_number_string_partial (E : Env) (fuel : Nat) (neg : Bool) (p :
   cases neg
   · exact ⟨⟨"+Inf", rfl, rfl⟩, ⟨"0", rfl, rfl⟩⟩
   · exact ⟨⟨"-Inf", rfl, rfl⟩, ⟨"-0", rfl, rfl⟩⟩
+
+/-- The exact condition under which number → string → number gives back an equal number: the text
+`Value.AsBigFloat().Text('f', -1)` of the number, read back by `ParseNumberVal`, is `RawEquals` to it.
+Decidable, and evaluated by the harness on every generated number; the recorded finding
+`integer-shortest-text-not-exact` is its complement. -/
+def numTextExact (n : Num) : Bool :=
+  match parseNumber (Num.textF n) with
+  | .ok m => Num.rawEqual m n
+  | _ => false
+
+/-- number → string → number returns a number equal to the original EXACTLY when `numTextExact` holds
+— for every environment and fuel. -/
+theorem roundtrip_number_string_iff (E : Env) (fuel : Nat) (n : Num) :
+    (∃ s m, convert E (fuel + 2) ⟨.number, .n n⟩ .string = .ok ⟨.string, .s s⟩ ∧
+      convert E (fuel + 2) ⟨.string, .s s⟩ .number = .ok ⟨.number, .n m⟩ ∧ Num.rawEqual m n = true) ↔
+    numTextExact n = true := by
+  have h1 : convert E (fuel + 2) ⟨.number, .n n⟩ .string = .ok ⟨.string, .s (Num.textF n)⟩ := rfl
+  have h2 : ∀ s, convert E (fuel + 2) ⟨.string, .s s⟩ .number =
+      (parseNumber s).map fun x => ⟨.number, .n x⟩ := fun _ => rfl
+  constructor
+  · rintro ⟨s, m, hs, hm, he⟩
+    rw [h1] at hs
+    simp only [Res.ok.injEq, Value.mk.injEq, Payload.s.injEq, true_and] at hs
+    subst hs
+    rw [h2] at hm
+    obtain ⟨x, hx, hxm⟩ := Res.map_eq_ok hm
+    simp only [Value.mk.injEq, Payload.n.injEq, true_and] at hxm
+    subst hxm
+    simp [numTextExact, hx, he]
+  · intro h
+    unfold numTextExact at h
+    cases hp : parseNumber (Num.textF n) with
+    | ok m =>
+      rw [hp] at h
+      exact ⟨_, m, h1, by rw [h2, hp]; rfl, h⟩
+    | err _ => rw [hp] at h; simp at h
+    | panic _ => rw [hp] at h; simp at h
+    | unmodelled => rw [hp] at h; simp at h
+
+/-- the recorded witness fails the condition; a small integer meets it -/
+theorem numTextExact_counterexample : numTextExact float1e23 = false := by
+  have h : parseNumber (Num.textF float1e23) = .ok (.fin false 11920928955078125 23 512) := rfl
+  simp only [numTextExact, h]
+  decide
+example : numTextExact (.fin true 12 0 64) = true := by
+  have h : parseNumber (Num.textF (.fin true 12 0 64)) = .ok (.fin true 3 2 512) := rfl
+  simp only [numTextExact, h]
+  decide
 
 /-- tuple → list has no inverse: no conversion from a list type to a tuple type is
 ever offered (so "tuple → list → tuple" cannot be asked for). -/
